@@ -217,7 +217,7 @@ fn model_space(tier: Tier) -> Vec<ModelCfg> {
 
 pub fn explore(opts: &Opts) -> Explored {
     let models = model_space(opts.tier);
-    let max_len = if opts.tier == Tier::Quick { 2 } else { 3 };
+    let max_len = if opts.tier == Tier::Quick { 2 } else { 4 };
     let local = par(opts, models.len(), |mi, l| {
         let m = &models[mi];
         let nb = batches(m).len();
@@ -237,6 +237,10 @@ pub fn explore(opts: &Opts) -> Explored {
                 let irregular_used = h.iter().any(|i| i.kind != Kind::Regular);
                 let smallest = m.layers.len() == 1;
                 if depth > 2 && !smallest && opts.tier == Tier::Quick {
+                    continue;
+                }
+                // four iterations only for single-layer models
+                if depth > 3 && !smallest {
                     continue;
                 }
                 for b in 0..nb {
